@@ -260,7 +260,7 @@ def build_harness(san="asan", extra_defs=(), wrap=()):
         if p.returncode != 0 and s == "drv.c":
             # an extension file of another property (possibly under construction) must not break this
             # property's harness: retry with the shared extension and this property's own only
-            mine = [e for e in allexts if os.path.basename(e)[4:-4] in ("race", CURRENT_PID) or os.path.basename(e)[4:-4] in CURRENT_EXTS]
+            mine = [e for e in allexts if os.path.basename(e)[4:-4] in ("race", "sched", CURRENT_PID) or os.path.basename(e)[4:-4] in CURRENT_EXTS]
             write_ext(mine)
             r2 = run(["clang"] + flags + ["-I", os.path.join(REPO, "include"), "-I", os.path.join(REPO, "src"), "-iquote", d, "-iquote", os.path.join(VERIF, "harness"),
                       "-c", os.path.join(VERIF, "harness", "drv.c"), "-o", drv], timeout=300)
